@@ -77,7 +77,8 @@ def build(tier="quick", seed=0):
         return list(it.iterate(it.call(sq.g["SqliteReader"], [path], {})))
 
     WRITERS = {"StreamWriter": (mk_stream, rd_stream, "/abs/out.records"), "JsonfileWriter": (mk_json, rd_json, "/abs/out.json"), "AvroWriter": (mk_avro, rd_avro, "/abs/out.avro"), "SqliteWriter": (mk_sqlite, rd_sqlite, "/abs/out.sqlite")}
-    ENDINGS = {"close": ["close"], "with-exit": ["exit"], "close close": ["close", "close"], "with-exit close": ["exit", "close"], "flush close": ["flush", "close"]}
+    ENDINGS = {"close": ["close"], "with-exit": ["exit"], "close close": ["close", "close"], "with-exit close": ["exit", "close"], "flush close": ["flush", "close"],
+               "with-exit after an exception in the block": ["exit_exc"]}
 
     def run_history(wname, body, ending):
         mk, rd, path = WRITERS[wname]
@@ -113,6 +114,10 @@ def build(tier="quick", seed=0):
                     it.call(it.getattr_(w, "close"), [], {})
                 elif op == "exit":
                     it.call(it.getattr_(w, "__exit__"), [None, None, None], {})
+                elif op == "exit_exc":
+                    # the with-block is left by an exception that the caller catches further up: the writer is closed like on any other exit
+                    exc = ValueError("the block failed")
+                    it.call(it.getattr_(w, "__exit__"), [ValueError, exc, None], {})
             try:
                 back = rd(path)
                 err = None
@@ -147,6 +152,8 @@ def build(tier="quick", seed=0):
             for body in itertools.product("wf", repeat=nops):
                 for ending in ENDINGS:
                     if tier == "quick" and nops == 3 and ending not in ("close", "with-exit"):
+                        continue
+                    if ending.startswith("with-exit after") and nops == 3:
                         continue
                     empty = "w" not in body
                     name = f"C17.{'empty' if empty else 'close'}[{wname}, {' '.join(body) or '-'} then {ending}]"
@@ -259,6 +266,29 @@ def build(tier="quick", seed=0):
             name = f"C17.split.history[N={n}, count={count}, {ending}]"
             pack.add(Obligation(name, lambda tier, name=name, n=n, count=count, ending=ending: prove_paths(name, run_split_history(n, count, ending), judge_split_history(n, count), lambda m_, p: {}, allow_raise=("error",)),
                                 replay=lambda w, n=n, count=count, ending=ending: {"call": "c17_split", "args": {"n": n, "count": count, "ending": ending}}, functions=FU, mode="concrete history (N, count), symbolic values"))
+
+    # the in-order concatenation of the parts AS RAW BYTES (cat part.* > whole) is a stream that reads back as exactly the sequence written, with and without a selector
+    def run_split_raw(n, count, selector):
+        def th():
+            fresh_fs()
+            D = desc()
+            w = it.call(sp.g["SplitWriter"], ["/abs/parts/out.records"], {"count": str(count)})
+            for i in range(n):
+                it.call(it.getattr_(w, "write"), [it.call(D, [], {"n": SInt(vs[i % 4]), "s": f"r{i}", "_generated": GEN})], {})
+            it.call(it.getattr_(w, "close"), [], {})
+            whole = []
+            for path in sorted(it.vfs):
+                whole += it.vfs[path].content()
+            rd = it.call(st.g["RecordStreamReader"], [AbsFile(it, whole)], {"selector": selector})
+            out, end = drain(it, it.iterate(rd))
+            return [it.unbase(r.attrs["s"]) if isinstance(r, PObj) else repr(r)[:30] for r in out], end if isinstance(end, str) else end[:2]
+        return th
+
+    for n, count in ((3, 1), (5, 2), (4, 2)):
+        for selector in (None, "r.s != 'nothing'"):
+            name = f"C17.split.raw[N={n}, count={count}, parts concatenated as raw bytes, {'selector ' + selector if selector else 'no selector'}]"
+            pack.add(Obligation(name, lambda tier, name=name, n=n, count=count, selector=selector: prove_paths(name, run_split_raw(n, count, selector), lambda p, n=n: (p.value == ([f"r{i}" for i in range(n)], "stop"), f"the parts concatenated as raw bytes read back as {p.value[0]}, ended {p.value[1]}; written r0..r{n - 1}"), lambda m_, p: {}, allow_raise=("error",)),
+                                replay=lambda w, n=n, count=count, selector=selector: {"call": "c17_split_raw", "args": {"n": n, "count": count, "selector": selector}}, functions=FU + ("flow.record.stream:RecordStreamReader.__iter__",), mode="concrete history (N, count), symbolic values"))
 
     # targets given as an adapter URI / a bare file name in the working directory are split like any other (only "-" / nothing means standard output)
     for target, reader in (("jsonfile://out.json", "json"), ("out.records", "stream"), ("stream://out.records", "stream"), ("jsonfile://./sub/out.json", "json")):
@@ -390,6 +420,6 @@ def build(tier="quick", seed=0):
                         "split for record counts N x limits x suffix lengths x target URIs (parts readable on their own, concatenation record-wise); rotation with pre-existing files; bound 60 (quick) / 1200 (thorough) cases", functions=FU))
     pack.assumptions += ["file contract: content written before close() is durable after close(); flush() does not change content", "fastavro / sqlite3 ghost-state models (sampled by C17.cross)", "file system model: rename replaces an existing target (POSIX), open for writing truncates",
                          "gzip / bz2 / lz4 / zstd are transparent wrappers in the deductive part (real codecs only in the native sweep)", "the clock is modelled for the rotation stamp (datetime.now)"]
-    pack.not_covered = ["raw-byte concatenation of split parts (each part is a complete stream with its own header; the statement's record-wise reading is what is proved)", "OS-level durability (fsync, power loss), races between os.path.exists and os.rename",
+    pack.not_covered = ["OS-level durability (fsync, power loss), races between os.path.exists and os.rename",
                         "__del__ driven closing at interpreter shutdown"]
     return pack
